@@ -90,7 +90,7 @@ func ruleTablePerConnection(p *Program, r *Result) {
 // (the session being handled) or in the drain loop at close.
 func ruleTableDeleteOnlyOwnSession(p *Program, r *Result) {
 	n := 0
-	for _, fn := range p.FuncsIn(func(path string) bool { return path == modPath }) {
+	for _, fn := range p.UnitsIn(func(path string) bool { return path == modPath }) {
 		for _, c := range allCalls(fn) {
 			bi, ok := c.Common().Value.(*ssa.Builtin)
 			if !ok || bi.Name() != "delete" {
@@ -146,7 +146,7 @@ func isDeferredByLoop(p *Program, fn *ssa.Function) bool {
 	for _, L := range p.Roles().Loops {
 		for _, b := range L.Blocks {
 			for _, in := range b.Instrs {
-				if d, ok := in.(*ssa.Defer); ok && d.Call.StaticCallee() == fn {
+				if d, ok := in.(*ssa.Defer); ok && sameFn(d.Call.StaticCallee(), fn) {
 					return true
 				}
 			}
@@ -204,7 +204,7 @@ func ruleConnectionStateReadOnly(p *Program, r *Result) {
 	}
 	sort.Strings(names)
 	nStores := 0
-	for _, fn := range p.FuncsIn(func(path string) bool { return path == modPath }) {
+	for _, fn := range p.UnitsIn(func(path string) bool { return path == modPath }) {
 		for _, b := range fn.Blocks {
 			for _, in := range b.Instrs {
 				st, ok := in.(*ssa.Store)
